@@ -22,6 +22,9 @@ func main() {
 	case "replay":
 		os.Exit(core.ReplayMain(os.Args[2:]))
 	default:
+		if f, ok := core.Subcommands[os.Args[1]]; ok {
+			os.Exit(f(os.Args[2:]))
+		}
 		fmt.Fprintln(os.Stderr, "unknown subcommand")
 		os.Exit(2)
 	}
